@@ -70,7 +70,12 @@ ErrExprs == [
 
 Hosts == {"stmt", "declrhs", "assignrhs", "oprhs", "idxtarget", "ifcond", "whilecond", "foriter",
           "return", "arg", "callee", "index", "rangebound", "listitem", "spread", "objkey", "objvalue",
-          "slot", "operand", "proprecv", "elifcond", "printarg"}
+          "slot", "operand", "proprecv", "elifcond", "printarg",
+          \* every remaining child-expression position of every node kind
+          "loperand", "indexsrc", "rindexsrc", "rindexstart", "rangestart", "rangeend", "objspread", "callspread",
+          "arrowrecv", "propassignrecv", "idxassignrecv", "rangeassignrecv", "rangeassignstart", "rangeassignend",
+          "destructkey", "fortargetidx", "opassigntargetidx", "declpatidx", "nestedslot", "fnbodyexpr", "methodarg",
+          "elsebody", "forbody", "whilebody", "rangeassignrhs", "destructrhs"}
 Q == Nm(<<113>>)
 Host(h, e) ==
     CASE h = "stmt"       -> <<SExpr(e)>>
@@ -95,6 +100,32 @@ Host(h, e) ==
       [] h = "operand"    -> <<SExpr(EBin("+", I(1), e))>>
       [] h = "proprecv"   -> <<SExpr(EProp(e, KA))>>
       [] h = "printarg"   -> <<SPrint(e)>>
+      [] h = "loperand"   -> <<SExpr(EBin("-", e, I(1)))>>
+      [] h = "indexsrc"   -> <<SExpr(EIndex(e, I(0)))>>
+      [] h = "rindexsrc"  -> <<SExpr(ERIndex(e, I(0), I(1)))>>
+      [] h = "rindexstart" -> <<SExpr(ERIndex(Xs, e, ENone))>>
+      [] h = "rangestart" -> <<SExpr(ERange(e, I(2)))>>
+      [] h = "rangeend"   -> <<SExpr(ERange(I(0), e))>>
+      [] h = "objspread"  -> <<SExpr(EObj(<<Pair(EStr(KA), I(1)), PSpread(e)>>))>>
+      [] h = "callspread" -> <<SExpr(ECallOf(IDF, <<Spread(e)>>))>>
+      [] h = "arrowrecv"  -> <<SExpr(ECall(ETProp(e, N_type), <<>>))>>
+      [] h = "propassignrecv" -> <<SAssign(EProp(e, KA), I(1))>>
+      [] h = "idxassignrecv" -> <<SAssign(EIndex(e, I(0)), I(1))>>
+      [] h = "rangeassignrecv" -> <<SAssign(ERIndex(e, I(0), I(1)), EList(<<I(1)>>))>>
+      [] h = "rangeassignstart" -> <<SAssign(ERIndex(Xs, e, I(1)), EList(<<I(1)>>))>>
+      [] h = "rangeassignend" -> <<SAssign(ERIndex(Xs, I(0), e), EList(<<I(1)>>))>>
+      [] h = "rangeassignrhs" -> <<SAssign(ERIndex(Xs, I(0), I(1)), e)>>
+      [] h = "destructkey" -> <<SDecl(EObj(<<Pair(e, Q)>>), EObj(<<Pair(EStr(KA), I(1))>>))>>
+      [] h = "destructrhs" -> <<SDecl(EPat(<<Q>>), e)>>
+      [] h = "fortargetidx" -> <<SFor(EPat(<<EVar(N_us), EIndex(Xs, e)>>), EList(<<I(5)>>), <<SPrint(I(77))>>)>>
+      [] h = "opassigntargetidx" -> <<SOpAssign(EIndex(Xs, e), "+", I(1))>>
+      [] h = "declpatidx" -> <<SAssign(EPat(<<Vv, EIndex(Xs, e)>>), EList(<<I(1), I(2)>>))>>
+      [] h = "nestedslot" -> <<SExpr(EIStr(<<Lit(<<>>), SlotP(0, EIStr(<<Lit(<<120>>), SlotP(0, e), Lit(<<>>)>>)), Lit(<<>>)>>))>>
+      [] h = "fnbodyexpr" -> <<SExpr(ECall(EFunc(<<>>, FALSE, <<SExpr(e)>>), <<>>))>>
+      [] h = "methodarg" -> <<SExpr(ECall(EProp(EObj(<<Pair(EStr(<<109>>), IDF)>>), <<109>>), <<e>>))>>
+      [] h = "elsebody"  -> <<SIfElse(EBool(FALSE), <<SPrint(I(77))>>, <<SExpr(e)>>)>>
+      [] h = "forbody"   -> <<SFor(Q, EList(<<I(1), I(2)>>), <<SExpr(e)>>)>>
+      [] h = "whilebody" -> <<SWhile(EBool(TRUE), <<SExpr(e)>>)>>
 
 ErrStmts == [
   AlreadyInScope   |-> <<SDecl(Q, I(1)), SDecl(Q, I(2))>>,
@@ -228,7 +259,7 @@ TraceIsActiveCalls ==
         LET d == status.diag
             n == Len(d.trace)
             extra == IF pi[2] \in {"ParamBindError"} THEN 1
-                     ELSE IF pi[1] = "expr" /\ pi[3] = "arg" /\ FALSE THEN 1 ELSE 0 IN
+                     ELSE IF pi[1] = "expr" /\ pi[3] = "fnbodyexpr" THEN 1 ELSE 0 IN
         /\ n = Depth + extra
         /\ n > 0 => d.trace[n].fn.k = "root"
         /\ \A i \in 1 .. n - 1 : d.trace[i].fn.k # "root"
